@@ -19,12 +19,12 @@ pub fn def() -> PropDef {
     PropDef {
         id: "C05",
         level: "exploration",
-        rule: "A writer thread runs a generated history (adds, deletes, commits tagged c<n>, aborts, rollbacks, explicit and policy merges, gc, writer drop/reopen) on SimDir or MmapDirectory while 1-3 reader threads - on the same Index and on a second Index::open of the same directory - loop reload(); fingerprint(searcher) and keep a generated subset of searchers alive to re-fingerprint them later (also after gc and after the writer is gone). SimDir gates hold a reloading reader at its n-th segment-file open for a bounded time while the writer continues. Oracle: every fingerprint taken after a reload equals the model of exactly one commit j with j >= the last commit completed before the reload began, j <= the last commit started before the observation ended, and j non-decreasing per reader; a held searcher's fingerprint, count and documents never change; no reload or search returns an error. Non-trivial = a reload overlapped a commit call (logical clock intervals) or a held searcher outlived >= 2 commits; distinct by hash(case).",
+        rule: "A writer thread runs a generated history (adds, deletes, commits tagged c<n>, aborts, rollbacks, explicit and policy merges, gc, writer drop/reopen) on SimDir or MmapDirectory while 1-3 reader threads - on the same Index and on a second Index::open of the same directory - loop reload(); fingerprint(searcher) and keep a generated subset of searchers alive to re-fingerprint them later (also after gc and after the writer is gone). SimDir gates hold a reloading reader at its n-th segment-file open for a bounded time while the writer continues. Oracle: every fingerprint taken after a reload equals the model of exactly one commit j with j >= the last commit completed before the reload began, j <= the last commit started before the observation ended, and j non-decreasing per reader; a held searcher's fingerprint, count and documents never change; no reload or search returns an error. Non-trivial = a reload overlapped a commit call (logical clock intervals) or a held searcher outlived >= 2 commits; distinct by hash(case). restart_during_merge: a merge of the first writer is held at a generated storage operation (SimDir gate) while the writer is dropped and a new writer adds, deletes and commits; readers (same Index or a second Index::open) must show the newest commit before the old merge is released, after it finished, through a fresh handle, and after one more commit.",
         assumptions: vec![
             "interleavings are those the OS produces plus bounded holds of readers at storage operations (gates); timeouts only steer, they never decide",
             "fingerprint = hash over (uid, group, body, num) of all live documents read through store and fast fields",
         ],
-        subs: vec![Box::new(Readers)],
+        subs: vec![Box::new(Readers), Box::new(RestartDuringMerge)],
     }
 }
 
@@ -301,6 +301,127 @@ impl Sub for Readers {
             cx.nontrivial(fp(c));
         }
         cx.sample(|| json!({"sub": "readers", "cfg": c.cfg, "ops": c.ops, "readers": c.readers, "reloads": reloads}));
+        Ok(())
+    }
+}
+
+// ------------------------------------------------------------------------------------------------
+/// A writer is dropped (or consumed by a rollback / restart) while one of its merges is still running; a new writer
+/// commits; then the old merge finishes.  Whatever becomes of that merge, a reload never moves back: before the old
+/// merge is released, after it has finished, and after one more commit, readers on the same `Index` and on a second
+/// `Index::open` see exactly the newest commit.  The merge thread is held at a generated storage operation by a SimDir
+/// gate, so the overlap does not depend on timing.
+#[derive(Clone, Debug, Serialize, Deserialize)]
+pub struct RestartCase {
+    pub cfg: HistCfg,
+    pub prefix: Vec<Op>,
+    /// which storage operation of the merge thread to hold at: 0 create, 1 append, 2 terminate
+    pub gate_kind: u8,
+    pub gate_nth: u8,
+    /// operations of the new writer while the old merge is held (a commit is appended)
+    pub during: Vec<Op>,
+    pub second_index: bool,
+}
+pub struct RestartDuringMerge;
+impl Sub for RestartDuringMerge {
+    type Case = RestartCase;
+    fn name(&self) -> &'static str {
+        "restart_during_merge"
+    }
+    fn cases(&self, tier: Tier) -> u32 {
+        tier.pick(400, 6000)
+    }
+    fn shards(&self, _t: Tier) -> usize {
+        12
+    }
+    fn max_shrink_iters(&self) -> u32 {
+        200
+    }
+    fn strategy(&self, _tier: Tier) -> BoxedStrategy<RestartCase> {
+        static DIRS: [DirKind; 1] = [DirKind::Sim];
+        let cfg = cfg_strategy(&DIRS).prop_map(|mut c| {
+            c.threads = c.threads.min(2);
+            c.policy = Policy::NoMerge;
+            c
+        });
+        let prefix_op = prop_oneof![8 => add_strategy().prop_map(Op::Add), 1 => any::<u16>().prop_map(Op::DelUid), 3 => Just(Op::Commit)];
+        let during_op = prop_oneof![5 => add_strategy().prop_map(Op::Add), 2 => any::<u16>().prop_map(Op::DelUid), 1 => (0..NUM_GROUPS).prop_map(Op::DelGroup), 2 => Just(Op::Commit)];
+        (cfg, prop::collection::vec(prefix_op, 4..24), 0u8..3, 0u8..10, prop::collection::vec(during_op, 1..8), any::<bool>())
+            .prop_map(|(cfg, prefix, gate_kind, gate_nth, during, second_index)| RestartCase { cfg, prefix, gate_kind, gate_nth, during, second_index })
+            .boxed()
+    }
+    fn mandatory_labels(&self, _t: Tier) -> Vec<&'static str> {
+        vec!["gate_reached", "commit_while_old_merge_held", "second_index", "old_merge_failed_or_discarded"]
+    }
+    fn run(&self, c: &RestartCase, cx: &Ctx) -> CaseResult {
+        let mut env = Env::new(c.cfg.clone())?;
+        env.check_quiescence = false;
+        env.skip_dirty_delete_all = true;
+        let DirHandle::Sim(sd) = &env.dir else { return Err(Failure::new("INFRA:not_sim", "")) };
+        let sd = sd.clone();
+        sd.set_logging(false, false);
+        for op in &c.prefix {
+            env.apply(op, cx)?;
+        }
+        env.apply(&Op::Commit, cx)?;
+        let ids = env.index.searchable_segment_ids().or_fail("segment_ids_failed")?;
+        if ids.len() < 2 {
+            cx.label("fewer_than_2_segments");
+            return Ok(());
+        }
+        let (_s, f) = hist_schema();
+        let observer: Index = if c.second_index { Index::open(sd.clone()).or_fail("second_index_open_failed")? } else { env.index.clone() };
+        let reader: IndexReader = observer.reader_builder().reload_policy(ReloadPolicy::Manual).try_into().or_fail("reader_open_failed")?;
+        let kind = match c.gate_kind {
+            0 => K::Create,
+            1 => K::Append,
+            _ => K::Terminate,
+        };
+        let gate = sd.add_gate(GateSpec { thread: "merge_thread".into(), kind: Some(kind), path_suffix: String::new(), nth: c.gate_nth as usize, max_hold: Duration::from_millis(500) });
+        let fut = env.writer.as_mut().unwrap().merge(&ids);
+        let reached = sd.wait_reached(gate, Duration::from_millis(300));
+        // the writer goes away while its merge is held; a new writer takes over
+        env.apply(&Op::Reopen, cx)?;
+        for op in &c.during {
+            env.apply(op, cx)?;
+        }
+        env.apply(&Op::Commit, cx)?;
+        let newest = model_fingerprint(&env.committed);
+        let look = |when: &str| -> CaseResult {
+            reader.reload().or_fail("reload_failed")?;
+            let got = searcher_fingerprint(&reader.searcher(), &f)?;
+            if got != newest {
+                let which: Vec<usize> = env.models.iter().enumerate().filter(|(_, m)| model_fingerprint(m) == got).map(|(j, _)| j).collect();
+                fail!("reload_stale_or_went_back:after_writer_restart", "{when}: the reload shows the state of commits {which:?}, the newest commit is c{}", env.commits);
+            }
+            Ok(())
+        };
+        look("new writer committed, old merge still held")?;
+        sd.release(gate);
+        let old_merge = fut.wait().map(|_| ()).map_err(|_| ());
+        look("old merge finished")?;
+        // a fresh handle opened now agrees
+        {
+            let fresh = Index::open(sd.clone()).or_fail("index_open_failed")?;
+            let r2: IndexReader = fresh.reader_builder().reload_policy(ReloadPolicy::Manual).try_into().or_fail("reader_open_failed")?;
+            let got = searcher_fingerprint(&r2.searcher(), &f)?;
+            ensure!(got == newest, "reload_stale_or_went_back:after_writer_restart", "a fresh Index::open after the old merge finished does not show the newest commit c{}", env.commits);
+        }
+        env.apply(&Op::Add(AddSpec { grp: 1, words: vec![1], num: 3 }), cx)?;
+        env.apply(&Op::Commit, cx)?;
+        let newest2 = model_fingerprint(&env.committed);
+        reader.reload().or_fail("reload_failed")?;
+        ensure!(searcher_fingerprint(&reader.searcher(), &f)? == newest2, "reload_stale_or_went_back:after_writer_restart", "after one more commit the reload does not show c{}", env.commits);
+        cx.evals(4);
+        cx.label_if(reached, "gate_reached");
+        cx.label_if(reached, "commit_while_old_merge_held");
+        cx.label_if(c.second_index, "second_index");
+        cx.label_if(old_merge.is_err(), "old_merge_failed_or_discarded");
+        cx.label_if(old_merge.is_ok(), "old_merge_reported_ok");
+        if reached {
+            cx.nontrivial(fp(c));
+        }
+        cx.sample(|| json!({"sub": "restart_during_merge", "cfg": c.cfg, "prefix": c.prefix.len(), "gate": [c.gate_kind, c.gate_nth], "during": c.during, "second_index": c.second_index, "gate_reached": reached}));
         Ok(())
     }
 }
